@@ -332,7 +332,9 @@ def gen_file(rng, natoms=None, ninstr=None, with_qpeaks=True, restraints=True, k
         r = rng.random()
         if resi and r < 0.15:
             num = rng.randint(1, 5)
-            cls = rng.choice(['', 'TOL', 'CCF3', 'thf'])
+            used = [l['cls'] for l in lines if l['kind'] == 'resi' and l['cls']]
+            cls = rng.choice(used) if used and rng.random() < 0.5 else rng.choice(['', 'TOL', 'CCF3', 'thf', 'B12'])
+            cls = rng.choice([cls, cls, cls.lower(), cls.upper()])     # classes are not case-sensitive
             toks = ['RESI'] + ([cls] if cls else []) + [str(num)]
             if cls and rng.random() < 0.4:
                 toks = ['RESI', str(num), cls]
@@ -349,13 +351,15 @@ def gen_file(rng, natoms=None, ninstr=None, with_qpeaks=True, restraints=True, k
             ctx['afix'] = mn
         elif restraints and r < 0.6:
             kw = rng.choice(rkw)
-            suffix = rng.choice([None, None, None, str(ctx['resi'][0]) if ctx['resi'][0] else None])
+            suffix = rng.choice([None, None, None, str(ctx['resi'][0]) if ctx['resi'][0] else None, ctx['resi'][1] if ctx['resi'][1] else None])
             toks, nums, ws = instr_tokens(rng, kw, names, suffix=suffix)
             add(toks, 'instr', kw=kw, nums=nums, words=ws, suffix=suffix)
         el = ''.join(c for c in nm if c.isalpha())[:2]
         el = el if el in els else el[:1]
         sf = els.index(el) + 1 if el in els else 1
         xyz = [round(rng.uniform(-0.5, 1.5), 5) for _ in range(3)]
+        if rng.random() < 0.15:      # special and nearly special positions
+            xyz[rng.randrange(3)] = rng.choice([0.0, 0.5, 0.25, 1.0, 0.33333, 0.00003, -0.00002, 0.00001, -0.5, 0.0001])
         own_sof = rng.choice([11.0, 11.0, 10.5, 21.0, -21.0, 10.25, 31.0])
         ncols = rng.choice([7, 7, 7, 12, 12, 6, 5])
         if ncols == 12:
